@@ -307,3 +307,6 @@ SUBCHECKS = [
     SubCheck("lookup", _lookup_cases, check_lookup, quick=400, thorough=2000,
              rule="non-trivial = parameter on a knot / domain end, or a surface (sizes differ by construction)"),
 ]
+
+# coverage-guided tier (thorough only): (sub-check, libFuzzer runs per process, processes)
+FUZZ = [("rays", 40000, 2), ("planar", 30000, 2)]
